@@ -86,7 +86,7 @@ Proof. exact mp_unset_omitted. Qed.
 Theorem C03_mp_required_present : forall T f k v o, mp_field T f k true v = Some o -> o <> None.
 Proof. exact mp_required_present. Qed.
 Theorem C03_mp_scalar_text : forall T f k req v p,
-  match k with KAny | KNone | KBool | KInt | KFloat | KStr => True | _ => False end ->
+  match k with KAny | KNone | KBool | KInt | KFloat | KStr | KConst _ => True | _ => False end ->
   mp_value T f k req v = Some p -> exists s, str_of v = Some s /\ p = MText s.
 Proof. exact mp_scalar_text. Qed.
 Theorem C03_mp_nested_is_json : forall T f k req v p,
